@@ -18,7 +18,7 @@ namespace detail
 	};
 
 	template<int N, typename T, qualifier Q, int E0, int E1, int E2, int E3, bool UseSimd>
-	struct _swizzle_base1 : public _swizzle_base0<T, N>
+	struct _swizzle_base1 : public _swizzle_base1<N, T, Q, E0, E1, E2, E3, false>
 	{
 	};
 
@@ -160,9 +160,9 @@ namespace detail
 	};
 
 	template<int N, typename T, qualifier Q, int E0, int E1, int E2, int E3>
-	struct _swizzle : public _swizzle_base2<N, T, Q, E0, E1, E2, E3, (E0 == E1 || E0 == E2 || E0 == E3 || E1 == E2 || E1 == E3 || E2 == E3)>
+	struct _swizzle : public _swizzle_base2<N, T, Q, E0, E1, E2, E3, (E0 == E1 || (N > 2 && (E0 == E2 || E1 == E2)) || (N > 3 && (E0 == E3 || E1 == E3 || E2 == E3)))>
 	{
-		typedef _swizzle_base2<N, T, Q, E0, E1, E2, E3, (E0 == E1 || E0 == E2 || E0 == E3 || E1 == E2 || E1 == E3 || E2 == E3)> base_type;
+		typedef _swizzle_base2<N, T, Q, E0, E1, E2, E3, (E0 == E1 || (N > 2 && (E0 == E2 || E1 == E2)) || (N > 3 && (E0 == E3 || E1 == E3 || E2 == E3)))> base_type;
 
 		using base_type::operator=;
 
@@ -316,14 +316,14 @@ namespace glm
 	struct { detail::_swizzle<2, T, Q, 1,1,-1,-2> E1 ## E1; };
 
 #define GLM_SWIZZLE2_3_MEMBERS(T, Q, E0,E1) \
-	struct { detail::_swizzle<3,T, Q, 0,0,0,-1> E0 ## E0 ## E0; }; \
-	struct { detail::_swizzle<3,T, Q, 0,0,1,-1> E0 ## E0 ## E1; }; \
-	struct { detail::_swizzle<3,T, Q, 0,1,0,-1> E0 ## E1 ## E0; }; \
-	struct { detail::_swizzle<3,T, Q, 0,1,1,-1> E0 ## E1 ## E1; }; \
-	struct { detail::_swizzle<3,T, Q, 1,0,0,-1> E1 ## E0 ## E0; }; \
-	struct { detail::_swizzle<3,T, Q, 1,0,1,-1> E1 ## E0 ## E1; }; \
-	struct { detail::_swizzle<3,T, Q, 1,1,0,-1> E1 ## E1 ## E0; }; \
-	struct { detail::_swizzle<3,T, Q, 1,1,1,-1> E1 ## E1 ## E1; };
+	struct { detail::_swizzle<3,T, Q, 0,0,0,3> E0 ## E0 ## E0; }; \
+	struct { detail::_swizzle<3,T, Q, 0,0,1,3> E0 ## E0 ## E1; }; \
+	struct { detail::_swizzle<3,T, Q, 0,1,0,3> E0 ## E1 ## E0; }; \
+	struct { detail::_swizzle<3,T, Q, 0,1,1,3> E0 ## E1 ## E1; }; \
+	struct { detail::_swizzle<3,T, Q, 1,0,0,3> E1 ## E0 ## E0; }; \
+	struct { detail::_swizzle<3,T, Q, 1,0,1,3> E1 ## E0 ## E1; }; \
+	struct { detail::_swizzle<3,T, Q, 1,1,0,3> E1 ## E1 ## E0; }; \
+	struct { detail::_swizzle<3,T, Q, 1,1,1,3> E1 ## E1 ## E1; };
 
 #define GLM_SWIZZLE2_4_MEMBERS(T, Q, E0,E1) \
 	struct { detail::_swizzle<4,T, Q, 0,0,0,0> E0 ## E0 ## E0 ## E0; }; \
